@@ -230,6 +230,11 @@ func TestC17Registry(t *testing.T) {
 			if err := tu.UnmarshalText(txt); err != nil || uint32(back.Elem().Uint()) != v {
 				fail("typed-unmarshaltext", "%s.UnmarshalText(%q) = 0x%08X, %v; want 0x%08X", et.Name(), txt, back.Elem().Uint(), err, v)
 			}
+			// the destination may hold an earlier value (a reused variable): what is read is the number written, nothing else
+			back.Elem().SetUint(0x7F7F7F7F)
+			if err := back.Interface().(encoding.TextUnmarshaler).UnmarshalText(txt); err != nil || uint32(back.Elem().Uint()) != v {
+				fail("typed-unmarshaltext-reused-destination", "%s.UnmarshalText(%q) into a reused variable = 0x%08X, %v; want 0x%08X", et.Name(), txt, back.Elem().Uint(), err, v)
+			}
 			rec.Eval(1)
 		}
 	}
@@ -290,6 +295,50 @@ func TestC17Registry(t *testing.T) {
 				}
 				if int32(back.Elem().Int()) != v {
 					fail("mask-roundtrip-"+encName, "%s=0x%X reads back as 0x%X (%s)", mt.Name(), v, back.Elem().Int(), out)
+				}
+				rec.Eval(1)
+			}
+		}
+	}
+	// typed masks: text form (MarshalText / UnmarshalText) of every flag, of all flags, of none, into fresh and reused destinations
+	for _, mt := range mts {
+		tag, ok := pins.Tags[mt.Name()]
+		flags, isMask := pins.Masks[tag]
+		if !ok || !isMask {
+			continue
+		}
+		all := int32(0)
+		vals := []int32{0}
+		for i := range flags {
+			vals = append(vals, int32(1)<<uint(i))
+			all |= int32(1) << uint(i)
+		}
+		vals = append(vals, all, 5, 0x00100000)
+		for _, v := range vals {
+			pv := reflect.New(mt)
+			pv.Elem().SetInt(int64(v))
+			tm, ok := pv.Elem().Interface().(encoding.TextMarshaler)
+			if !ok {
+				continue
+			}
+			txt, err := tm.MarshalText()
+			if err != nil {
+				fail("mask-marshaltext", "%s(0x%X).MarshalText: %v", mt.Name(), v, err)
+				continue
+			}
+			for _, preload := range []int64{0, 0x3, int64(all)} {
+				back := reflect.New(mt)
+				back.Elem().SetInt(preload)
+				tu, ok := back.Interface().(encoding.TextUnmarshaler)
+				if !ok {
+					break
+				}
+				if err := safely(func() error { return tu.UnmarshalText(txt) }); err != nil {
+					fail("mask-unmarshaltext", "%s.UnmarshalText(%q): %v", mt.Name(), txt, err)
+					continue
+				}
+				if int32(back.Elem().Int()) != v {
+					fail("mask-text-roundtrip", "%s: %q was written for 0x%X but reads back as 0x%X (destination held 0x%X before)", mt.Name(), txt, v, back.Elem().Int(), preload)
 				}
 				rec.Eval(1)
 			}
